@@ -168,7 +168,7 @@ def killed_script_case(sig):
         r = pr.run("all", timeout=30)
         log = pr.log()
         if r.timed_out:
-            return {"property": "C07", "expected": "the run ends when gen's shell is killed by SIG%s" % sig, "observed": "no exit in 30 s", "zinoma": r.brief()}
+            return {"property": ["C07", "C04"], "expected": "the run ends when gen's shell is killed by SIG%s" % sig, "observed": "no exit in 30 s", "zinoma": r.brief()}
         started_dependents = "s lib" in log or "s app" in log
         if r.rc == 0 or started_dependents:
             return {"property": ["C07", "C05"] + (["C01"] if started_dependents else []), "expected": "gen's shell was killed by SIG%s: the build failed - zinoma exits non-zero and lib, app (which depend on gen) never start" % sig, "observed": "exit %s; log %s" % (r.rc, log), "zinoma": r.brief()}
